@@ -11,7 +11,9 @@ WT = '/var/tmp/seedverify'
 def sh(cmd, cwd=None, env=None, timeout=3000):
     return subprocess.run(cmd, cwd=cwd, env=env, shell=isinstance(cmd, str), capture_output=True, text=True, timeout=timeout)
 
-def build(wt):
+def build(wt, force=False):
+    if force:  # setuptools does not track header dependencies: touch every Cython / C++ source so that everything is recompiled
+        sh("find dimod extern -name '*.pyx' -o -name '*.cpp' | grep -v '/build/' | xargs touch", cwd=wt)
     r = sh(f'CYTHON_NTHREADS=8 {PY} setup.py build_ext --inplace -j8', cwd=wt)
     assert r.returncode == 0, r.stdout[-2000:] + r.stderr[-2000:]
 
@@ -33,19 +35,20 @@ def main():
             meta = json.load(open(os.path.join(seed, 'meta.json')))
             patch = os.path.abspath(os.path.join(seed, 'patch.diff'))
             native = bool(re.search(r'\.(pyx|pxi|pxd|h|hpp|cpp)\b', open(patch).read()))
+            header = bool(re.search(r'^\+\+\+ .*\.(pxi|pxd|h|hpp)\b', open(patch).read(), flags=re.M))
             rc0, out0 = demo(WT, seed)
             r = sh(['git', 'apply', patch], cwd=WT)
             if r.returncode != 0:
                 meta['confirmed'] = f'patch does not apply to HEAD: {r.stderr[-200:]}'
             else:
                 if native:
-                    build(WT)
+                    build(WT, force=header)
                 t = sh([PY, '-m', 'pytest', '-q', '-p', 'no:cacheprovider', '--timeout=900', 'tests'], cwd=WT)
                 tail = (t.stdout.strip().splitlines() or ['?'])[-1]
                 rc1, out1 = demo(WT, seed)
                 sh(['git', 'checkout', '--', '.'], cwd=WT)
                 if native:
-                    build(WT)
+                    build(WT, force=header)
                 ok = rc0 == 0 and rc1 != 0 and t.returncode == 0
                 meta['confirmed'] = dict(ok=ok, head=sh(['git', '-C', WT, 'rev-parse', '--short', 'HEAD']).stdout.strip(),
                                          suite_with_change=tail, demo_without=f'exit {rc0}', demo_with=f'exit {rc1}',
